@@ -339,11 +339,20 @@ def serXT : Nat → XT → Script → Bytes × Script
       (ident cls false num ++ lenForm c0 body.length ++ body, s)
     | .string =>
       let (c1, s) := next s
-      if c1 % 3 = 0 ∨ content.isEmpty then (ident cls false num ++ lenForm c0 content.length ++ content, s)
+      if c1 % 3 = 0 then (ident cls false num ++ lenForm c0 content.length ++ content, s)
       else
-        -- constructed form: OCTET STRING segments, possibly themselves constructed (nested)
+        -- constructed form: OCTET STRING segments, possibly themselves constructed (nested); X.690 8.7.3 allows
+        -- "zero, one or more" segments, and a segment may be empty: the script may put an empty segment in
+        -- front, in the middle or at the end (an empty string: no segment at all, or empty ones)
         let (c2, s) := next s
-        let pieces := splitEvery (c2 % 5 + 1) 6 content
+        let pieces0 := splitEvery (c2 % 5 + 1) 6 content
+        let pieces : List Bytes :=
+          match c2 / 5 % 5 with
+          | 1 => [] :: pieces0
+          | 2 => pieces0 ++ [[]]
+          | 3 => pieces0.take 1 ++ [[]] ++ pieces0.drop 1
+          | 4 => [] :: (pieces0 ++ [[], []])
+          | _ => pieces0
         let kids : List XT := pieces.map fun p => XT.prim .universal 4 (if c1 % 3 = 2 then .string else .plain) p
         let (body, s) := serXTs fuel kids s
         let (c3, s) := next s
